@@ -346,7 +346,9 @@ permission table read independently of internal/auth.  `admitted` is that indepe
 request's own (name, action, credentials, IP); `granted` is what the stub answered (like the real
 pathManager it grants SkipAuth requests and never honours SkipAuth on FindPathConf). -/
 
-inductive EvKind | find | describe | addPub | addReader
+/-- `media`: not a path-manager request but a media response (playlist / segment) the server gave to the client
+    for path `name` (HLS, where one authorised session serves many requests); `granted` = it was served. -/
+inductive EvKind | find | describe | addPub | addReader | media
 deriving DecidableEq, Repr
 
 structure Ev where
@@ -369,10 +371,18 @@ def justifies (f e : Ev) : Bool :=
   !f.skip && f.admitted && f.granted && f.name == e.name && f.publish == e.publish &&
   (e.kind != .addPub || (f.kind == .find && e.conf != 0 && e.conf == f.conf))
 
+/-- an earlier request that backs a media response for path `e.name`: a reader request for exactly that path,
+    carrying the credentials, admitted and granted -/
+def backsMedia (f e : Ev) : Bool :=
+  f.kind != .media && !f.skip && !f.publish && f.admitted && f.granted && f.name == e.name
+
 /-- one event, given the earlier events of its connection.  `secretOK`: the client presented the HLS CDN
     secret (only then may a reader be attached with SkipAuth and no earlier authenticated request). -/
 def evProblem (secretOK : Bool) (prev : List Ev) (e : Ev) : Option String :=
-  if !e.isAttach then
+  if e.kind == .media then
+    if !e.granted || secretOK || prev.any (fun f => backsMedia f e) then none
+    else some "media of a path was served to a session that holds no authorization for that path"
+  else if !e.isAttach then
     if e.granted && !e.skip && !e.admitted then some "a request that the permission table refuses for the client's own address and credentials was granted" else none
   else if (e.kind == .addPub) != e.publish then some "attach with a Publish flag that does not match the method"
   else if !e.skip then
